@@ -19,6 +19,10 @@ Next == \/ s_a' \in V /\ UNCHANGED <<s_b, s_c>>
 Spec == Init /\ [][Next]_vars
 
 C(x, y) == CmpV(R(x), R(y), Variant)
+(* the plain-value comparison that proofs/OrderProof.tla proves to be a total order for all naturals *)
+OD == INSTANCE OrderDefs WITH N <- NClasses
+SameAsProved == Variant = "fixed" => (OD!Cmp(s_a, s_b) = C(s_a, s_b) /\ (OD!Key(s_a) < OD!Key(s_b)) = (C(s_a, s_b) = "Less"))
+ASSUME \A x, y \in (0..40) \cup (7440..7500) : OD!Cmp(x, y) = CmpV(R(x), R(y), "fixed")
 Reflexive == C(s_a, s_a) = "Equal"
 Antisymmetric == C(s_a, s_b) = Flip(C(s_b, s_a))
 EqualIffEq == (C(s_a, s_b) = "Equal") <=> (R(s_a) = R(s_b))
